@@ -22,7 +22,8 @@ ASSUMPTIONS = [
 ]
 REQUIRED = ['warm_dispatch_after_add', 'warm_dispatch_after_rm', 'warm_dispatch_after_reg', 'warm_dispatch_after_unreg',
             'detached_subtree_dispatch', 'instance_channel_dispatch', 'global_handler_dispatch', 'inherited_handler_dispatch',
-            'implicit_method_dispatch', 'ops_inside_handlers', 'pre_registration_event', 'fire_overlapping_unregister']
+            'implicit_method_dispatch', 'ops_inside_handlers', 'pre_registration_event', 'fire_overlapping_unregister',
+            'same_event_object_fired_on_two_channels']
 REQUIRED_OBLIGATIONS = ['EXACT_SET']
 WORKER_TIMEOUT = {'quick': 300, 'thorough': 1500}
 
@@ -144,6 +145,12 @@ class World:
                     out.add((c, hid))
         return out
 
+    def expected2(self, e):
+        exp = list(self.expected(e['x'], e['name'], e['ch']))
+        if 'ch2' in e:
+            exp += list(self.expected(e['x'], e['name'], e['ch2']))
+        return exp
+
     def mutate(self, kind):
         """Called *before* every model mutation: pending, unobserved events may have been dispatched
         under the current version."""
@@ -163,7 +170,7 @@ class World:
         cid = comp._vcid
         if e['pending']:
             e['pending'] = False
-            e['expected'] = self.expected(e['x'], e['name'], e['ch'])
+            e['expected'] = self.expected2(e)
             root = self.top(e['x'])
             e['root'] = root
             key = (root, e['name'], repr(e['ch']))
@@ -223,6 +230,31 @@ class World:
                 self.comps[x].fire(ev)
             else:
                 self.comps[x].fire(ev, ch)
+        elif kind == 'fire2':
+            # ONE event object fired to two different channels before either delivery is dispatched (two queue entries):
+            # each delivery reaches the handlers of its own channel; the tree is settled at once, so one model version applies
+            _, x, name, ch1, ch2 = op
+            ev = self.Event.create(name)
+            self.uid += 1
+            ev._vuid = self.uid
+            m1, m2 = self.chan_of(ch1), self.chan_of(ch2)
+            self.events[self.uid] = {'x': x, 'name': name, 'ch': m1, 'ch2': m2, 'expected': None, 'could_be_empty': False,
+                                     'pending': True, 'inside': inside}
+            self.marks.add('same_event_object_fired_on_two_channels')
+            held = self.in_unreg
+            self.in_unreg = True   # handler scripts are held back: one model version must apply to both deliveries
+            for ch, m in ((ch1, m1), (ch2, m2)):
+                if isinstance(m, tuple):
+                    self.comps[x].fire(ev, self.comps[m[1]])
+                else:
+                    self.comps[x].fire(ev, ch)
+            if not inside:
+                self.settle_all()
+                self.in_unreg = held
+                e = self.events[self.uid]
+                if e['pending']:
+                    e['pending'] = False
+                    e['expected'] = self.expected2(e)
         elif kind == 'settle':
             self.settle_all()
         elif kind == 'flush':
@@ -420,6 +452,13 @@ def corpus():
         [F, 0, 'ping', ['inst', 1]], [F, 0, 'ping', ['inst', 2]], [F, 0, 'ping', ['inst', 0]], S,
         [F, 1, 'ping', None], [F, 2, 'ping', None], [F, 0, 'zap', 'b'], [F, 0, 'zap', 'c'], S,
         [F, 0, 'ping', 'a'], [F, 0, 'ping', 'b'], [F, 0, 'ping', ['inst', 1]], S]})
+    # 4b. one event object fired to two channels before dispatch (the memo must be keyed by the channels of the queue entry)
+    cs_ = {'name': 'same-object-two-channels', 'comps': [comp(0, None, []), comp(1, 'a', [H(1, ['ping'])]), comp(2, 'b', [H(2, ['ping'])]),
+                                                         comp(3, 'c', [H(3, ['ping']), H(4, ['ping'], '*')])], 'ops': [
+        ['reg', 1, 0], ['reg', 2, 0], ['reg', 3, 0], ['fire2', 0, 'ping', 'a', 'b'], [F, 0, 'ping', 'b'], S, [F, 0, 'ping', 'a'], S,
+        ['add', 2, {'hid': 90, 'names': ['ping'], 'channel': None}], ['fire2', 0, 'ping', 'b', 'c'], [F, 0, 'ping', 'c'], [F, 0, 'ping', 'b'], S,
+        ['rm', 2, 90], ['fire2', 0, 'ping', 'c', ['inst', 1]], [F, 0, 'ping', ['inst', 1]], [F, 0, 'ping', 'c'], S]}
+    cases.append(cs_)
     # 5. inheritance with and without override, implicit methods
     base = {'handlers': [H(10, ['ping'], attr='foo'), H(11, ['ping'], attr='bar'), H(12, ['pong'], attr='baz')]}
     cases.append({'name': 'inherit', 'comps': [
@@ -492,6 +531,10 @@ def gen_case(rng):
     def rnd_op(inside=False):
         r = rng.random()
         x = rng.randrange(n)
+        if r < 0.04 and not inside:
+            c1, c2 = rnd_ch() or '*', rnd_ch() or 'a'
+            if c1 != c2:
+                return ['fire2', x, rng.choice(NAMES), c1, c2]
         if r < 0.45:
             return ['fire', x, rng.choice(NAMES), rnd_ch()]
         if r < 0.58:
